@@ -413,6 +413,11 @@ func body(r *eng.Run) {
 	var expired sync.Once
 	var mu sync.Mutex
 	hist := map[string]int{}
+	var dumpF *os.File
+	if f := os.Getenv("VERIF_C08_DUMP"); f != "" {
+		dumpF, _ = os.Create(f)
+		defer dumpF.Close()
+	}
 	eng.ParFor(len(items), func(i int) {
 		it := items[i]
 		b, v := buildBase(it.c)
@@ -432,6 +437,11 @@ func body(r *eng.Run) {
 			r.Eval(1)
 			for _, v := range vs {
 				r.Report(v)
+			}
+			if dumpF != nil && next != nil { // development aid: root CIDs of well-formed results
+				mu.Lock()
+				fmt.Fprintf(dumpF, "%+v fresh=%d %s\n", c, res.equalFresh, next.root)
+				mu.Unlock()
 			}
 			// second append on top of a well-formed first one
 			if next != nil && e > 0 {
